@@ -204,6 +204,15 @@ impl Property for C20 {
             ops.push(gen_send(&mut r, true));
             return MacCase { cfg, ops, knob: 1 };
         }
+        if !mutation_mode && r.chance(1, 25) {
+            // the ADR counter is in its back-off phase (>= 96 unanswered uplinks) when the session is saved
+            ops.push(Op::SetDr(*crate::refregion::uplink_drs(cfg.region).last().unwrap()));
+            for _ in 0..r.range(96, 135) {
+                ops.push(Op::Send { port: 3, len: 1, confirmed: false, txn: Txn::default() });
+            }
+            ops.push(Op::SaveRestore);
+            ops.push(Op::Send { port: 3, len: 1, confirmed: false, txn: Txn::default() });
+        }
         // nb: a crash point between two events of an uplink procedure (the session is readable there)
         if nb && !avoid.contains(TAG_MID_PROCEDURE_CUT) && r.chance(1, 4) {
             // (uncollected downlinks die with the power: keep the application diligent in these runs)
